@@ -12,6 +12,7 @@ import sys
 import time
 
 ROOT = os.path.dirname(os.path.dirname(os.path.abspath(__file__)))
+OUT = os.environ.get('VERIF_OUT', ROOT)   # evidence/ and replays/ go here (redirected for seeded-mutation drills)
 REPO = os.environ.get('VERIF_REPO', '/repo')
 SRC = os.path.join(REPO, 'src')
 
@@ -126,7 +127,7 @@ class Run:
             print(f"KNOWN-FINDING: property={self.pid} {key} -- {kf.get('what', '')}")
             return
         h = hashlib.sha1(json.dumps([key, replay_payload], sort_keys=True, default=str).encode()).hexdigest()[:10]
-        rdir = os.path.join(ROOT, 'replays', self.pid)
+        rdir = os.path.join(OUT, 'replays', self.pid)
         os.makedirs(rdir, exist_ok=True)
         safe = obligation.replace('/', '_').replace(':', '_')
         path = os.path.join(rdir, f'{safe}-{h}.json')
@@ -134,7 +135,7 @@ class Run:
                        found_input=bool(found_input), what=what, repo=repo_describe(), data=replay_payload)
         with open(path, 'w') as f:
             json.dump(payload, f, indent=1, default=str)
-        rec['replay'] = os.path.relpath(path, ROOT)
+        rec['replay'] = os.path.relpath(path, OUT)
         self.violations.append(rec)
         tail = '' if found_input else ' no-failing-input-found'
         print(f"VIOLATION property={self.pid} replay={rec['replay']}{tail}")
@@ -175,8 +176,8 @@ class Run:
         ev = dict(property_id=self.pid, tier=self.tier, seed=int(self.seed), level=self.level,
                   coverage=cov, assumptions=self.assumptions, wall_s=round(wall, 2),
                   violations=len(self.violations))
-        os.makedirs(os.path.join(ROOT, 'evidence'), exist_ok=True)
-        with open(os.path.join(ROOT, 'evidence', f'{self.pid}.json'), 'w') as f:
+        os.makedirs(os.path.join(OUT, 'evidence'), exist_ok=True)
+        with open(os.path.join(OUT, 'evidence', f'{self.pid}.json'), 'w') as f:
             json.dump(ev, f, indent=1, default=str)
         if self.crashed:
             print(f'CHECKER-CRASH property={self.pid}: {self.crashed}')
